@@ -41,3 +41,142 @@ class Text:
 
     def call(i):
         return list(native_walker().text(i["data"]))
+
+
+# ---- NonRecursiveTreeWalker.__iter__: what is emitted on entering and on leaving a node -------------------
+from pyvc.contract import LoopSpec, clause, same_object, is_list, iff
+
+HTML_NS = "http://www.w3.org/1999/xhtml"
+VOID = frozenset(["base", "command", "event-source", "link", "meta", "hr", "br", "img", "embed", "param", "area",
+                  "col", "input", "source", "track", "wbr"])
+DOCUMENT, DOCTYPE, TEXT, ELEMENT, COMMENT, ENTITY = 9, 10, 3, 1, 8, 6
+NRW = "html5lib.treewalkers.base.NonRecursiveTreeWalker"
+
+
+def is_void_html(namespace, name):
+    """an HTML void element: no end tag exists for it"""
+    return (namespace is None or namespace == "" or namespace == HTML_NS) and name in VOID
+
+
+def node_details(S):
+    """what getNodeDetails may answer for an arbitrary node"""
+    k = S.choice(7)
+    if k == 0:
+        return (DOCUMENT,)
+    if k == 1:
+        return (DOCTYPE, S.str("dt_name"), S.one_of(None, lambda: S.str("publicId")), S.one_of(None, lambda: S.str("systemId")))
+    if k == 2:
+        return (TEXT, S.str("text"))
+    if k == 3:
+        return (ELEMENT, S.one_of(None, lambda: S.str("namespace")), S.str("name"), S.strmap("attributes", pair_keys=True),
+                S.bool("hasChildren"))
+    if k == 4:
+        return (COMMENT, S.str("comment"))
+    if k == 5:
+        return (ENTITY, S.str("entity"))
+    return (S.str("unknown_type"), S.str("unknown_detail"))
+
+
+def walker(S):
+    w = S.obj(NRW, tree=S.abstract("Node"))
+
+    def getNodeDetails(I, args, kwargs):
+        node = args[0]
+        if "details" not in node.fields:
+            node.fields["details"] = node_details(S)
+        return node.fields["details"]
+
+    def other_node(I, args, kwargs):
+        return S.one_of(None, lambda: S.abstract("Node"))
+    w.methods.update(getNodeDetails=getNodeDetails, getFirstChild=other_node, getNextSibling=other_node,
+                     getParentNode=other_node)
+    return w
+
+
+def outer_havoc(S, L):
+    L.currentNode = S.abstract("Node")
+
+
+def inner_havoc(S, L):
+    L.currentNode = S.abstract("Node")
+    L.details = ()
+    L.type = 0
+    L.hasChildren = False
+    L.namespace = None
+    L.name = ""
+    L.attributes = None
+    L.nextSibling = None
+
+
+def entering_ok(yielded, type, details, hasChildren):
+    """the tokens emitted on entering a node, and whether its children will be visited"""
+    if type == DOCUMENT:
+        return len(yielded) == 0 and hasChildren is True
+    if type == DOCTYPE:
+        return (len(yielded) == 1 and yielded[0]["type"] == "Doctype" and yielded[0]["name"] == details[0]
+                and yielded[0]["publicId"] == details[1] and yielded[0]["systemId"] == details[2] and hasChildren is False)
+    if type == TEXT:
+        ok = "".join([t["data"] for t in yielded]) == details[0] and hasChildren is False
+        for t in yielded:
+            ok = ok and (t["type"] == "Characters" or t["type"] == "SpaceCharacters")
+        return ok
+    if type == ELEMENT:
+        namespace, name, attributes, has = details
+        if is_void_html(namespace, name):
+            # void HTML element: one EmptyTag (plus an error token if the tree gave it children), children skipped
+            if len(yielded) == 0 or not (yielded[0]["type"] == "EmptyTag" and yielded[0]["name"] == name
+                                         and yielded[0]["namespace"] == namespace
+                                         and same_object(yielded[0]["data"], attributes) and hasChildren is False):
+                return False
+            if len(yielded) == 1:
+                return not has
+            return len(yielded) == 2 and has and yielded[1]["type"] == "SerializeError"
+        return (len(yielded) == 1 and yielded[0]["type"] == "StartTag" and yielded[0]["name"] == name
+                and yielded[0]["namespace"] == namespace and same_object(yielded[0]["data"], attributes)
+                and hasChildren == has)
+    if type == COMMENT:
+        return len(yielded) == 1 and yielded[0]["type"] == "Comment" and yielded[0]["data"] == details[0] and hasChildren is False
+    if type == ENTITY:
+        return len(yielded) == 1 and yielded[0]["type"] == "Entity" and yielded[0]["name"] == details[0] and hasChildren is False
+    return len(yielded) == 1 and yielded[0]["type"] == "SerializeError" and hasChildren is False
+
+
+def outer_step(yielded, type, details, hasChildren, firstChild):
+    if firstChild is None:
+        return True          # the walk turned to "leaving": checked where the inner loop is entered (inner_inv)
+    return entering_ok(yielded, type, details, hasChildren)
+
+
+def turning_point(yielded, type, details, hasChildren):
+    # when the walk turns from "entering" to "leaving": what was emitted for the node just entered
+    return entering_ok(yielded, type, details, hasChildren)
+
+
+def leaving_step(yielded, type, details):
+    """on leaving a node: an EndTag exactly for elements that got a StartTag (never for void HTML elements)"""
+    if type == ELEMENT:
+        namespace, name, attributes, has = details
+        if is_void_html(namespace, name):
+            return len(yielded) == 0
+        return (len(yielded) == 1 and yielded[0]["type"] == "EndTag" and yielded[0]["name"] == name
+                and yielded[0]["namespace"] == namespace)
+    return len(yielded) == 0
+
+
+def inner_inv_any(currentNode):
+    return True
+
+
+@contract(NRW + ".__iter__")
+class WalkerIter:
+    props = ("C11", "C19")
+    modular = False
+
+    def inputs(S):
+        return dict(self=walker(S))
+
+    loops = {"While1": LoopSpec(havoc=outer_havoc, invariant=inner_inv_any, props=("C11", "C19"),
+                                step=[clause("entering_a_node", outer_step, "C11", "C19")]),
+             "While2": LoopSpec(havoc=inner_havoc, invariant=inner_inv_any, props=("C11", "C19"),
+                                entry=[clause("entering_a_node", turning_point, "C11", "C19")],
+                                step=[clause("leaving_a_node", leaving_step, "C11", "C19")])}
